@@ -303,11 +303,12 @@ def case_cuts(arg):
         shutil.rmtree(tmp, ignore_errors=True)
 
 
-def emit_layouts(out, tier, label):
+def emit_layouts(out, tier, label, family='uamiv'):
     """Model-check the layout/crash model and return the emitted items."""
     scale = 'quick' if tier == 'quick' else 'full'
     r = need_ok(run_tlc('CamxLayout_MC', workers=16, timeout=3000, heap='8g',
-                        env={'PNC_EMIT': '1', 'PNC_CAMX_SCALE': scale}),
+                        env={'PNC_EMIT': '1', 'PNC_CAMX_SCALE': scale,
+                             'PNC_CAMX_FAMILY': family}),
                 'CamxLayout_MC')
     out.add_tlc('CamxLayout_MC (%s): tiling, reader decision procedure on '
                 'every cut offset' % label, r)
